@@ -21,7 +21,7 @@ import struct
 
 from vlib import REPO, TranslatorError
 
-SLOT = {"UDPv4Address": 0, "UDPv6Address": 1, "tuple": 2}
+SLOT = {"UDPv4Address": 0, "UDPv6Address": 1, "tuple": 2, "UDPv4LANAddress": 3, "DomainAddress": 4}
 
 
 def _cls(tree, name):
